@@ -1819,20 +1819,14 @@ impl TypeSpace {
                 // Array with a schema for the item.
                 Some(SingleOrVec::Single(item_schema)) => {
                     let item_id = self.id_for_schema(type_name.append("item"), item_schema)?.0;
-                    Ok((
-                        TypeEntryDetails::Array(item_id, *max_items as usize).into(),
-                        metadata,
-                    ))
+                    Ok((fixed_array(item_id, *max_items), metadata))
                 }
                 // Array with no schema for the item.
                 None => {
                     let any_id = self
                         .id_for_schema(type_name.append("item"), &Schema::Bool(true))?
                         .0;
-                    Ok((
-                        TypeEntryDetails::Array(any_id, *max_items as usize).into(),
-                        metadata,
-                    ))
+                    Ok((fixed_array(any_id, *max_items), metadata))
                 }
             },
 
@@ -2095,6 +2089,17 @@ impl TypeSpace {
             (1, Some(subschema)) => Some(self.convert_schema(type_name, subschema).ok()?.0),
             _ => None,
         }
+    }
+}
+
+/// The type for an array schema of fixed length. serde implements Serialize
+/// and Deserialize for arrays of up to 32 elements only, so longer ones are
+/// emitted as a Vec.
+fn fixed_array(item_id: crate::TypeId, len: u32) -> TypeEntry {
+    if len <= 32 {
+        TypeEntryDetails::Array(item_id, len as usize).into()
+    } else {
+        TypeEntryDetails::Vec(item_id).into()
     }
 }
 
